@@ -6,6 +6,7 @@ The ...Match classes trim the reads.
 """
 
 import logging
+import re
 from enum import IntFlag
 from collections import defaultdict
 from typing import Optional, Tuple, Sequence, Dict, Any, List, Union
@@ -1273,6 +1274,10 @@ class MultipleAdapters(Matchable):
         return best_match
 
 
+# The index contains strings over A, C, G, T only
+_NOT_ACGT = re.compile("[^ACGT]")
+
+
 class AdapterIndex:
     """
     Index of multiple adapters
@@ -1470,7 +1475,7 @@ class AdapterIndex:
         the best match or None if no match was found
         """
         affix = self._make_affix(sequence.upper(), self._length)
-        if "N" in affix:
+        if _NOT_ACGT.search(affix):
             result = self._lookup_with_n(affix)
             if result is None:
                 return None
@@ -1504,7 +1509,7 @@ class AdapterIndex:
                 # The read is too short to contain an affix of this length
                 continue
             affix = self._make_affix(affix, length)
-            if "N" in affix:
+            if _NOT_ACGT.search(affix):
                 result = self._lookup_with_n(affix)
                 if result is None:
                     continue
@@ -1529,9 +1534,10 @@ class AdapterIndex:
             return self._make_match(best_adapter, best_length, best_m, best_e, sequence)
 
     def _lookup_with_n(self, affix):
-        # N wildcards need to be counted as mismatches (read wildcards aren’t allowed).
-        # We can thus look up an affix where we replace N with an arbitrary nucleotide.
-        affix_without_n = affix.replace("N", "A")
+        # N wildcards and any other characters that are not A, C, G or T need to be
+        # counted as mismatches (read wildcards aren’t allowed). We can thus look up
+        # an affix where we replace them with an arbitrary nucleotide.
+        affix_without_n = _NOT_ACGT.sub("A", affix)
         try:
             result = self._index[affix_without_n]
         except KeyError:
